@@ -125,6 +125,22 @@ impl FeoxStore {
         self.version_clock.shard_index(key)
     }
 
+    /// The memory admission of every creating or growing write, callable on its own (the store
+    /// calls it under a hash-index entry guard, where a simulated thread must not be parked).
+    pub fn verif_reserve_memory(&self, amount: usize) -> bool {
+        match self.reserve_memory(amount) {
+            Ok(reservation) => {
+                reservation.commit();
+                true
+            }
+            Err(_) => false,
+        }
+    }
+
+    pub fn verif_release_memory(&self, amount: usize) {
+        self.release_memory(amount);
+    }
+
     pub fn verif_record_overhead() -> usize {
         std::mem::size_of::<Record>()
     }
